@@ -772,6 +772,90 @@ def read_context_attr(mapper):
     return found[0]
 
 
+def read_array_handler(mapper, foreign):
+    """The handler `map_foreign` sends numpy arrays to, recognised by SHAPE (statement by statement):
+
+        result = numpy.empty(expr.shape, dtype=object)
+        for i in numpy.ndindex(expr.shape):
+            result[i] = self.rec(expr[i])
+        return result
+
+    -> ("ndindexFill", handler name): a fresh OBJECT array of the input's shape whose entry at every
+    index (visited in `numpy.ndindex` = row-major order) is the value of the entry there — the list
+    handler on the entries in row-major order, re-shaped.  Anything else -> ("other", source text):
+    the table then no longer says what the model assumes (obligation `array_handler_current`)."""
+    import numpy
+    names = [h for k, h in foreign if k == "numpy"]
+    if len(names) != 1:
+        return ("other", f"map_foreign has {len(names)} numpy rules")
+    fn = getattr(mapper, names[0], None)
+    if fn is None:
+        return ("other", f"no handler {names[0]}")
+    try:
+        tree, fn = function_ast(fn)
+    except ExtractError as e:
+        return ("other", str(e))
+    src = ast.unparse(tree)
+    a = tree.args
+    if a.posonlyargs or a.kwonlyargs or a.vararg or a.kwarg or len(a.args) != 2:
+        return ("other", src)
+    self_n, node_n = a.args[0].arg, a.args[1].arg
+    mods = {}
+    body = []
+    for st in tree.body:
+        if isinstance(st, ast.Expr) and isinstance(st.value, ast.Constant) and isinstance(st.value.value, str):
+            continue
+        if isinstance(st, ast.Import) and all(al.name == "numpy" for al in st.names):
+            for al in st.names:
+                mods[al.asname or "numpy"] = numpy
+            continue
+        body.append(st)
+    g = fn.__globals__
+
+    def is_np(node, attr):
+        return (isinstance(node, ast.Attribute) and node.attr == attr and isinstance(node.value, ast.Name)
+                and (mods.get(node.value.id) is numpy
+                     or (node.value.id not in (self_n, node_n) and g.get(node.value.id) is numpy)))
+
+    def is_shape(node):
+        return (isinstance(node, ast.Attribute) and node.attr == "shape"
+                and isinstance(node.value, ast.Name) and node.value.id == node_n)
+
+    if len(body) != 3:
+        return ("other", src)
+    s0, s1, s2 = body
+    ok0 = (isinstance(s0, ast.Assign) and len(s0.targets) == 1 and isinstance(s0.targets[0], ast.Name)
+           and isinstance(s0.value, ast.Call) and is_np(s0.value.func, "empty")
+           and len(s0.value.args) == 1 and is_shape(s0.value.args[0])
+           and len(s0.value.keywords) == 1 and s0.value.keywords[0].arg == "dtype"
+           and isinstance(s0.value.keywords[0].value, ast.Name)
+           and s0.value.keywords[0].value.id == "object" and "object" not in g)
+    if not ok0:
+        return ("other", src)
+    res = s0.targets[0].id
+    ok1 = (isinstance(s1, ast.For) and not s1.orelse and isinstance(s1.target, ast.Name)
+           and isinstance(s1.iter, ast.Call) and is_np(s1.iter.func, "ndindex")
+           and len(s1.iter.args) == 1 and is_shape(s1.iter.args[0]) and not s1.iter.keywords
+           and len(s1.body) == 1 and isinstance(s1.body[0], ast.Assign)
+           and len(s1.body[0].targets) == 1)
+    if not ok1:
+        return ("other", src)
+    i = s1.target.id
+    tgt, val = s1.body[0].targets[0], s1.body[0].value
+    ok1b = (isinstance(tgt, ast.Subscript) and isinstance(tgt.value, ast.Name) and tgt.value.id == res
+            and isinstance(tgt.slice, ast.Name) and tgt.slice.id == i
+            and isinstance(val, ast.Call) and isinstance(val.func, ast.Attribute)
+            and val.func.attr == "rec" and isinstance(val.func.value, ast.Name)
+            and val.func.value.id == self_n and len(val.args) == 1 and not val.keywords
+            and isinstance(val.args[0], ast.Subscript) and isinstance(val.args[0].value, ast.Name)
+            and val.args[0].value.id == node_n and isinstance(val.args[0].slice, ast.Name)
+            and val.args[0].slice.id == i and len({res, i, self_n, node_n}) == 4)
+    ok2 = isinstance(s2, ast.Return) and isinstance(s2.value, ast.Name) and s2.value.id == res
+    if not (ok1b and ok2):
+        return ("other", src)
+    return ("ndindexFill", names[0])
+
+
 def read_entry_point(fn):
     """`evaluate` / `evaluate_kw`: default mapper class; body ends in mapper_cls(context)(expression)"""
     tree, fn = function_ast(fn)
@@ -902,6 +986,7 @@ def evaluator_table(ctx=None):
         recOwner=[(EM.__name__, rec_owner(EM)), (CEM.__name__, rec_owner(CEM))],
         memo=read_memo(pm.CachedMapper),
         contextAttr=read_context_attr(EM),
+        arrayBody=read_array_handler(EM, foreign),
         entryPoints=[("evaluate", read_entry_point(ev.evaluate)),
                      ("evaluate_kw", read_entry_point(ev.evaluate_kw))],
         reached=sorted(must),
@@ -1032,7 +1117,9 @@ def to_lean(t):
         "storeFallback := %s },\n" % tuple(lb(m[k]) for k in (
             "lookupFirst", "keyType", "keyExpr", "storeMethod", "storeFallback")) +
         f"  contextAttr := {q(t['contextAttr'])},\n"
-        f"  entryPoints := {l_pairs(t['entryPoints'])}\n"
+        f"  entryPoints := {l_pairs(t['entryPoints'])},\n"
+        "  arrayBody := %s\n" % ((".ndindexFill " + q(t["arrayBody"][1])) if t["arrayBody"][0] == "ndindexFill"
+                                 else (".other " + q(t["arrayBody"][1]))) +
         "}\n\n"
         "end PV.Generated\n")
 
